@@ -215,6 +215,61 @@ def run(ctx):
                     ctx.violation(key + "|above-K", "(K + jI) - L L^T is not positive semi-definite", rp({"min_eig": float(ev.min()), "tol": gtol}))
                 job.update(kind="modified", Q=Q, R=R, s1=s1, v1=v1, s2=s2[kq - p:], v2=v2[:, kq - p:], p=p, kq=kq, W1=W1, rank=rank)
             jobs.append(job)
+    # ---- many cells (more than any plausible internal block of rows, and not a multiple of a power of two): row i of the
+    #      sparse factor belongs to cell i;  L = K_xu Lp^-T  entry-wise (independent NumPy solve), never above K on a sub-block
+    import mellon.cov as mcov
+    from scipy.linalg import solve_triangular as st_
+    for nbig in ([1100] if not ctx.thorough else [1100, 1324, 2500]):
+        r = np.random.default_rng(ctx.seed + nbig)
+        xb = r.normal(size=(nbig, 2))
+        xub = xb[r.choice(nbig, size=20, replace=False)] + 0.05 * r.normal(size=(20, 2))
+        covb = mcov.Matern52(0.9)
+        jb = 1e-6
+        for gpt in ("sparse_cholesky", "fixed"):
+            keyb = "C04|%s|many-cells" % gpt
+            rpb = {"gp_type": gpt, "n": nbig, "kernel": "Matern52(0.9)", "jitter": jb, "x": "default_rng(verif_seed + n).normal(size=(n, 2))",
+                   "landmarks": xub.tolist(), "verif_seed": ctx.seed, "call": "mellon.parameters.compute_L(x, cov, gp_type, landmarks, jitter=1e-6)"}
+            try:
+                Lb = np.asarray(par.compute_L(xb, covb, gp_type=gpt, landmarks=xub, jitter=jb), dtype=float)
+            except Exception as e:      # noqa
+                ctx.violation(keyb + "|" + type(e).__name__, "compute_L raised %s on %d cells" % (type(e).__name__, nbig), dict(rpb, error=str(e)[:200]))
+                continue
+            Kuu_b = np.asarray(covb(xub, xub), dtype=float)
+            Kxu_b = np.asarray(covb(xb, xub), dtype=float)
+            Lp_b = np.linalg.cholesky(0.5 * (Kuu_b + Kuu_b.T) + jb * np.eye(20))
+            want = st_(Lp_b, Kxu_b.T, lower=True).T
+            dist[keyb] = dist.get(keyb, 0) + 1
+            amp = np.linalg.cond(Lp_b)
+            tolb = 64 * 20 * U * amp * (np.abs(want) + 1.0)
+            if Lb.shape != want.shape or not (np.abs(Lb - want) <= tolb).all():
+                bad_rows = np.where((np.abs(Lb - want) > tolb).any(axis=1))[0] if Lb.shape == want.shape else []
+                ctx.violation(keyb + "|rows", "rows of the sparse factor do not belong to their cells (L != K_xu Lp^-T) on a data set with many cells",
+                              dict(rpb, shape=list(Lb.shape), first_bad_rows=[int(i) for i in bad_rows[:5]], n_bad_rows=int(len(bad_rows)),
+                                   max_difference=float(np.abs(Lb - want).max()) if Lb.shape == want.shape else "shape"))
+    # ---- history: a kernel object whose hyper-parameter is changed in place between two factorisations (a documented way of
+    #      re-tuning a kernel): the second factor is that of the kernel as it is NOW (compared with a freshly built kernel)
+    for gpt in ("full", "sparse_cholesky", "fixed"):
+        r = np.random.default_rng(ctx.seed + 404)
+        xh = r.normal(size=(30, 2))
+        xuh = xh[:10] + 0.05 * r.normal(size=(10, 2))
+        kw_h = dict(gp_type=gpt, jitter=1e-6) if gpt == "full" else dict(gp_type=gpt, landmarks=xuh, jitter=1e-6)
+        covh = mcov.Matern52(0.7)
+        keyh = "C04|%s|kernel-changed-in-place" % gpt
+        try:
+            par.compute_L(xh, covh, **kw_h)
+            covh.ls = 2.1
+            L_now = np.asarray(par.compute_L(xh, covh, **kw_h), dtype=float)
+            L_fresh = np.asarray(par.compute_L(xh, mcov.Matern52(2.1), **kw_h), dtype=float)
+        except Exception as e:      # noqa
+            ctx.violation(keyh + "|" + type(e).__name__, "compute_L raised %s after the kernel's length scale was changed in place" % type(e).__name__,
+                          {"gp_type": gpt, "error": str(e)[:200]})
+            continue
+        dist[keyh] = dist.get(keyh, 0) + 1
+        if L_now.shape != L_fresh.shape or not np.array_equal(L_now, L_fresh):
+            ctx.violation(keyh, "after cov.ls was changed in place, compute_L still factorises the old kernel",
+                          {"gp_type": gpt, "x": xh.tolist(), "landmarks": None if gpt == "full" else xuh.tolist(),
+                           "sequence": "cov = Matern52(0.7); compute_L(x, cov, ...); cov.ls = 2.1; compute_L(x, cov, ...) vs compute_L(x, Matern52(2.1), ...)",
+                           "max_difference": float(np.abs(L_now - L_fresh).max()) if L_now.shape == L_fresh.shape else "shape"})
     for f in rec.failures[:5]:
         ctx.broken.append(Broken("contract", f.split(":")[0], f))
     n_eval = 0
